@@ -328,3 +328,52 @@ Print Assumptions C19_src_deque_copy.
 Print Assumptions C19_src_dict_copy.
 Print Assumptions C19_src_list_getstate.
 Print Assumptions C19_src_list_setstate.
+
+(* ---- generated layer, round 5: the INTAKE sites (Field.__set__, extract_field_value, the __set__ of the collection
+   fields) re-translated from the source on every run (harness/genmods/py2v_alias_intake.py -> Gen/AliasIntakeSrc.v)
+   into the identity heap of Struct/CopyHeap.v; bridging lemmas in Struct/AliasIntakeSrcProofs.v ---- *)
+From TP Require Import Base.PyOpsAliasIntake Gen.AliasIntakeSrc Struct.AliasIntakeSrcProofs.
+
+(* the element loop of a typed Array / Deque REBUILDS: a new list holding what the item field's own __set__ stores
+   for each element, in order -- never the caller's list *)
+Theorem C19_src_intake_extract_rebuilds :
+  forall (E : aenv) (CK : checks) (recf : nat -> CopyHeap.heap -> CopyHeap.child -> res (CopyHeap.heap * CopyHeap.child))
+         (rec : CopyHeap.heap -> CopyHeap.child -> res (CopyHeap.heap * CopyHeap.child)) (sup : aval -> aval -> aval -> M aval)
+         (fimm custom : bool) (nm : pystr) (f : nat) (u ad : aval) (l : CopyHeap.loc) (h : CopyHeap.heap) (o : CopyHeap.obj) (n0 : pystr),
+    CopyHeap.get h l = Some o -> CopyHeap.o_kind o = CopyHeap.KList ->
+    Src_extract_field_value E CK recf rec sup (fself fimm custom nm (item_field f n0) u ad) (AV (CopyHeap.CRef l)) (AClass CopyHeap.KList) h =
+    lift_kids (map_kidsR (recf f) h (unlabel (CopyHeap.o_kids o))) (fun h1 ks => Ok (h1, ATmp CopyHeap.KList ks)).
+Proof. exact src_extract_field_value. Qed.
+
+(* Field.__set__ of a field not declared immutable (or a Map) RETAINS the object it is handed (AliasIntake: fset_passes) *)
+Theorem C19_src_intake_field_set_retains :
+  forall (E : aenv) (CK : checks) (recf : nat -> CopyHeap.heap -> CopyHeap.child -> res (CopyHeap.heap * CopyHeap.child))
+         (rec : CopyHeap.heap -> CopyHeap.child -> res (CopyHeap.heap * CopyHeap.child)) (sup : aval -> aval -> aval -> M aval)
+         (nm : pystr) (items u ad : aval) (ia : list (pystr * aval)),
+    uniq_off E -> constructing ia ->
+    forall (fimm custom : bool) (v : aval) (h : CopyHeap.heap),
+    fimm && negb custom = false -> (fimm = true -> alist_get ia nm = None) ->
+    pystr_eqb nm (s2p "_instantiated") = false ->
+    Src_Field_set E CK recf rec sup (fself fimm custom nm items u ad) (AObj ia) v h = Ok (h, AObj (alist_set ia nm v)).
+Proof. exact src_field_set_plain. Qed.
+
+(* Field.__set__ of a field declared immutable keeps a DEEP COPY of every value that is not of an exempt type *)
+Theorem C19_src_intake_field_set_immutable_copies :
+  forall (E : aenv) (CK : checks) (recf : nat -> CopyHeap.heap -> CopyHeap.child -> res (CopyHeap.heap * CopyHeap.child))
+         (rec : CopyHeap.heap -> CopyHeap.child -> res (CopyHeap.heap * CopyHeap.child)) (sup : aval -> aval -> aval -> M aval)
+         (nm : pystr) (items u ad : aval) (ia : list (pystr * aval)),
+    constructing ia ->
+    forall (c : CopyHeap.child) (h : CopyHeap.heap),
+    alist_get ia nm = None -> pystr_eqb nm (s2p "_instantiated") = false ->
+    CopyHeap.child_isinstance h c [CopyHeap.TImmMixin] = false ->
+    Src_Field_set E CK recf rec sup (fself true false nm items u ad) (AObj ia) (AV c) h =
+    if CopyHeap.child_isinstance h c set_exempt_tys then Ok (h, AObj (alist_set ia nm (AV c)))
+    else match rec h c with
+         | Ok (h1, c1) => Ok (h1, AObj (alist_set ia nm (AV c1)))
+         | Raise e => Raise (if exn_eqb e TypeError then TypeError else e)
+         end.
+Proof. exact src_field_set_immutable. Qed.
+
+Print Assumptions C19_src_intake_extract_rebuilds.
+Print Assumptions C19_src_intake_field_set_retains.
+Print Assumptions C19_src_intake_field_set_immutable_copies.
